@@ -155,9 +155,15 @@ def triage(vc, mod, report, args):
     for ob in st["cover_fail"]:
         report["errors"].append(f"cover query unsatisfiable (vacuous precondition / unreachable path): {ob.id}")
         code = 3
+    # reachability (vacuity guard): every harness needs at least one path whose preconditions and path condition are shown
+    # satisfiable; a satisfiability query that times out on a further path of the same harness is recorded, not fatal
+    ok_harness = {ob.id.split("/cover:")[0] for ob in st["cover_ok"]}
     for ob in st["cover_unknown"]:
-        report["undecided"].append(f"cover query undecided: {ob.id} ({ob.result.reason})")
-        code = max(code, 2)
+        if ob.id.split("/cover:")[0] in ok_harness:
+            report.setdefault("notes", []).append(f"cover query undecided: {ob.id} ({ob.result.reason})")
+        else:
+            report["undecided"].append(f"cover query undecided: {ob.id} ({ob.result.reason})")
+            code = max(code, 2)
     for ob in st["unknown"]:
         report["undecided"].append(f"{ob.id}: {ob.result.reason}")
         code = max(code, 2)
@@ -313,6 +319,7 @@ def write_evidence(vc, mod, report, args, seed, wall, code):
         "bounded_standin_obligations": {"generated": len(bounded), "passed": len([o for o in bounded if o.result and o.result.status == solve.PROVED]),
                                         "note": "bounded stand-ins: not counted in obligations/discharged"},
         "cover_satisfied": len(st["cover_ok"]) if st else 0,
+        "cover_undecided": len(st["cover_unknown"]) if st else 0,
         "checker_cmd": f"./check {vc.prop} --tier {args.tier}",
         "backends": backends,
         "solver_seconds": round(solver_s, 3),
